@@ -607,7 +607,7 @@ def replay_witness(seed, tier, model):
 
 
 # ------------------------------------------------------------------------------------------------------
-def run(ctx):
+def _run(ctx):
     quick = ctx.tier == 'quick'
     status = gm.generate_scores(ctx)
     for k, v in status.items():
@@ -670,3 +670,16 @@ def run(ctx):
     ctx.assumptions += ['column labels of the query are pairwise distinct', 'query cells are finite floats',
                         'monotonicity/range of the copula CDF is reduced to the same properties of the MVN CDF oracle (hypotheses mvn_cdf_mono, '
                         'mvn_cdf_range) and monotone marginal CDFs (C03)']
+
+
+def run(ctx):
+    """the check proper, then the history/recovery oracle (always, also after a broken translation)"""
+    from .. import extra_oracles
+    try:
+        _run(ctx)
+    finally:
+        try:
+            extra_oracles.gm_refit_history(ctx, 'C13')
+        except Exception as ex:       # the oracle itself must never hide the result of the check proper
+            ctx.obligation('oracle:extra:raised', False, 'correspondence', repr(ex))
+            ctx.violation('oracle:extra:raised:' + type(ex).__name__, 'history/recovery oracle raised ' + repr(ex), {'repro': '# see tools/vf/extra_oracles.py'})
